@@ -1,3 +1,4 @@
+import Mqtt5V.Proofs.TraceTruth
 import Mqtt5V.Proofs.PubSend
 import Mqtt5V.Proofs.Replies
 /-! # C01 — publish success is truthful (reply-matching core)
@@ -186,5 +187,33 @@ theorem success_reports_an_acknowledgement (is : List Model.PubSend.In) : ∀ (s
 
 
 end PubSendOp
+
+/-! ## the composed client model (`Model/Trace.lean`)
+One labelled transition system for the whole outbound path of the client above the stream (API call → sender → reply map → completion),
+over the events an observer of the real client sees.  The tie: `lib/trace_check.py` replays every H-client transcript of the real
+`mqtt_client` through the compiled model (`mdrv trace`); a transcript the model refuses is a broken correspondence.  The theorems below
+hold for EVERY event list the model accepts, of any length. -/
+section ComposedModel
+open Mqtt5V.Model
+
+/-- **C01 end to end, every accepted history**: when an `async_publish` (QoS 1/2; also SUBSCRIBE/UNSUBSCRIBE, see C14) completes
+without error handing `rcs` / `props` to its handler, then earlier in the history (`Trace.Truthful`): a PUBLISH of exactly this operation
+was written carrying a non-zero identifier `p`, AFTER that a well-formed acknowledgement for `p` of the right type was read whose reason
+code is `rcs` (admissible for its packet type) and whose properties are `props`; for QoS 2 either a failing PUBREC (which ends the
+exchange) or the full chain PUBLISH → successful PUBREC → PUBREL → PUBCOMP, in this order. -/
+theorem composed_publish_success_truthful (pre post : List Trace.Ev) (op : Nat) (rcs : List Nat) (props : Nat)
+    (hacc : Trace.accepts (pre ++ Trace.Ev.doneOk op rcs props :: post) = true) :
+    ∃ p k n, Trace.Ev.init op k n ∈ pre ∧ p ≠ 0 ∧ Trace.Truthful pre op p k n rcs props :=
+  Mqtt5V.Proofs.Trace.success_truthful hacc
+
+/-- non-vacuity: a QoS 2 exchange with a fast PUBCOMP (it arrives while the PUBREL is still being written) is accepted … -/
+example : Trace.accepts [.init 1 .pub2 1, .connUp (some 1), .wr, .pk (.publish 1 2 7 false 3), .wrOk,
+    .rx ⟨.pubrec, 7, [0], 0, true⟩, .wr, .pk (.pubrel 7), .rx ⟨.pubcomp, 7, [0], 5, true⟩, .wrOk, .doneOk 1 [0] 5] = true := by decide
+/-- … a success without an acknowledgement is not, nor one that uses an acknowledgement which arrived before the PUBLISH was written -/
+example : Trace.accepts [.init 1 .pub1 1, .connUp none, .wr, .pk (.publish 1 1 7 false 3), .wrOk, .doneOk 1 [0] 0] = false := by decide
+example : Trace.accepts [.init 1 .pub1 1, .connUp none, .rx ⟨.puback, 7, [0], 0, true⟩, .wr, .pk (.publish 1 1 7 false 3), .wrOk,
+    .doneOk 1 [0] 0] = false := by decide
+
+end ComposedModel
 
 end Mqtt5V.Props.C01
